@@ -496,6 +496,8 @@ func main() {
 		var iwg sync.WaitGroup
 		iwg.Add(1)
 		go func() { defer iwg.Done(); idleDeadline(r) }()
+		iwg.Add(1)
+		go func() { defer iwg.Done(); idleAfterLargeFrame(r) }()
 		defer iwg.Wait()
 		now := uint64(time.Now().Unix())
 		type job struct {
@@ -677,6 +679,14 @@ func main() {
 						b = append(b, str(bytes.Repeat([]byte{fill.b}, fill.n))...)
 						submit("table", []piece{wf(frames.Frame{Body: b, Kind: frames.KAddHardCert, Name: fmt.Sprintf("add-hard-cert-%d-with-%d-byte-comment-of-0x%02x", ki, fill.n, fill.b)}), wf(frames.Frame{Body: []byte{11}, Kind: frames.KList, Name: "list"})}, false)
 					}
+				}
+			}
+			// add-hardware-certificate frames whose inner length fields hold the largest 32-bit values
+			for _, inner := range [][]byte{{0xff, 0xff, 0xff, 0xfc}, {0xff, 0xff, 0xff, 0xfd}, {0xff, 0xff, 0xff, 0xfe}, {0xff, 0xff, 0xff, 0xff}, {0x7f, 0xff, 0xff, 0xff}, {0x80, 0x00, 0x00, 0x00}, {0xff, 0xff, 0xff, 0xfb}} {
+				for _, body := range [][]byte{append([]byte{31}, inner...), append([]byte{31, 0, 0, 0, 1, 'x'}, inner...), append(append([]byte{31}, inner...), 'a', 'b', 'c', 'd', 'e', 'f', 'g', 'h')} {
+					pc := piece{raw: wire.Frame(body), class: "malformed", note: fmt.Sprintf("add-hardware-certificate with inner length %x", inner)}
+					submit("table", []piece{pc}, false)
+					submit("table", []piece{wf(frames.Frame{Body: []byte{11}, Kind: frames.KList, Name: "list"}), pc, wf(frames.Frame{Body: []byte{11}, Kind: frames.KList, Name: "list"})}, true)
 				}
 			}
 			r.Extra("table_streams", idx)
